@@ -382,6 +382,21 @@ fn gen_case(rng: &mut Rng) -> (String, &'static str) {
             b.extend(std::iter::repeat(0u8).take(n as usize));
             (case_text(&b, false), "gen-pingpong-max")
         }
+        // timestamps around i64::MAX (beyond it cannot be built with `Timestamp`): patch the 8 bytes
+        38 => {
+            let kind = *rng.pick(&[0u64, 1, 2, 3]);
+            let m = wiregen::message_of_kind(rng, kind, false);
+            let mut b = wire::serialize(&m);
+            let n = b.len();
+            let off = match kind {
+                0 => if rng.bool() { n - 16 } else { n - 8 },
+                1 => 2 + 32 + 64 + 1 + 8,
+                _ => n - 8,
+            };
+            let v: u64 = *rng.pick(&[i64::MAX as u64 - 1, i64::MAX as u64, i64::MAX as u64 + 1, u64::MAX, 0]);
+            b[off..off + 8].copy_from_slice(&v.to_be_bytes());
+            (case_text(&b, false), "gen-timestamp")
+        }
         // random bytes behind a valid type id
         _ => {
             let mut b = vec![0, *rng.pick(&[2u8, 4, 6, 8, 10, 12, 14])];
@@ -416,7 +431,7 @@ fn main() {
     ctx.finish(
         "byte strings given to the real wire::deserialize::<Message>: encodings of messages of every type built from \
          the repo's types (vector sizes 0/1/limit-1/limit, ping/pong sizes up to MAX_*_ZEROES, timestamps 0 and i64::MAX, \
-         all address types incl. valid onion addresses, multi-byte aliases, agents); node announcements with alias / \
+         all address types: IPv4 special ranges, structured IPv6 (IPv4-mapped/-compatible, ::, ::1, NAT64, 6to4, link-local, unique-local, multicast, documentation), DNS names (255 bytes, trailing dot, upper case, punycode, IDN, IP/onion look-alikes), valid onion addresses, ports 0/65535; multi-byte, upper-case, non-NFC aliases; agents with spaces and upper case); timestamps patched to i64::MAX-1/MAX/MAX+1/u64::MAX; node announcements with alias / \
          user-agent fields replaced by UTF-8, White_Space/Cc and user-agent-grammar boundary strings; user agent dropped \
          or cut short; ping/pong padding overwritten; bit/byte/insert/delete/truncate/append mutations; counts beyond the \
          vector limits; ping/pong counts around the encodable maximum; random bytes behind a valid type id. \
